@@ -725,6 +725,20 @@ func (ch *chaos) logDivergenceClass(a, b string, upTo int64) string {
 		if ch.clusterLogDivergence != "" {
 			return ch.clusterLogDivergence
 		}
+		// entries that a replica had applied were cut from its log in this run, or one of the two went through a
+		// truncation: the known causes of a state difference, whether or not the logs can still be compared
+		truncated := false
+		for _, e := range ch.c.Events() {
+			if e.Kind == "truncate-below-applied" {
+				return "logs-identical-after-a-truncation-below-the-applied-offset"
+			}
+			if e.Kind == "truncate-ok" && (e.Node == a || e.Node == b) {
+				truncated = true
+			}
+		}
+		if truncated {
+			return "logs-identical-but-a-replica-was-truncated-earlier"
+		}
 		return cls
 	}
 	if wa == nil || wb == nil || wa.LastOffset() < 0 || wb.LastOffset() < 0 {
